@@ -516,6 +516,58 @@ func generate(rn *runner, rng *hlib.Rng, bits, multis, combos int) {
 		}
 	}
 
+	// 4b. node registration on the recorded vectors: every shape of the descriptor's constraints
+	// policy x consensus default PCS policies (disabled, minimum evaluation number, black list,
+	// permissive, absent) x feature flag. The RAK cannot match a recorded quote, so a verified
+	// quote shows as "rak" and a rejected one as "quote".
+	for vi, v := range usable[:2] {
+		if !v.Accepted {
+			continue
+		}
+		_ = vi
+		parts := strings.Split(v.Result, ":")
+		id := append(unhx(parts[1]), unhx(parts[2])...)
+		ti := tcbInfoFacts(v.Case.TcbBody)
+		mk := func(f func(p *pcs.QuotePolicy)) *pcs.QuotePolicy {
+			p := &pcs.QuotePolicy{TCBValidityPeriod: 30, MinTCBEvaluationDataNumber: pcs.DefaultMinTCBEvaluationDataNumber}
+			if v.Case.Pol != nil {
+				q := *v.Case.Pol
+				p = &q
+			}
+			f(p)
+			return p
+		}
+		defs := []struct {
+			kind string
+			pol  *pcs.QuotePolicy
+		}{
+			{"pcs", mk(func(p *pcs.QuotePolicy) { p.Disabled = true })},
+			{"pcs", mk(func(p *pcs.QuotePolicy) { p.MinTCBEvaluationDataNumber = ti.info.TCBEvaluationDataNumber + 1 })},
+			{"pcs", mk(func(p *pcs.QuotePolicy) { p.FMSPCBlacklist = []string{ti.info.FMSPC} })},
+			{"pcs", mk(func(p *pcs.QuotePolicy) {})},
+			{"pcs", nil},
+			{"none", nil},
+			{"nil", nil},
+		}
+		for _, shape := range []string{"nil", "empty", "ias", "pcs", "both"} {
+			for _, d := range defs {
+				for _, fs := range []bool{true, false} {
+					for _, dias := range []bool{false, true} {
+						c := v.Case.clone()
+						c.Tag = "registration"
+						c.AttRak = make([]byte, 32)
+						c.AttOK = id
+						c.Reg, c.FsPCS, c.Def, c.DefIAS, c.DefPol = shape, fs, d.kind, dias, d.pol
+						if (shape == "pcs" || shape == "both") && c.Pol == nil {
+							c.Pol = mk(func(p *pcs.QuotePolicy) {})
+						}
+						rn.add(c)
+					}
+				}
+			}
+		}
+	}
+
 	// 5. foreign collateral: every (quote, TCB info, QE identity) triple, at the time of each part
 	for qi, qv := range usable {
 		for ti, tv := range usable[:3] {
